@@ -135,6 +135,10 @@ func runC06(c *harness.Ctx, idx int) {
 	v := c06Value(r, s)
 	msg := ref.EncodeWith(s, v.Elem(), &ref.EncodeOpts{Order: r.Perm})
 	poison := r.Bool()
+	if idx%5 == 4 {
+		runC06NoCopy(c, r, poison)
+		return
+	}
 	c.Describe("poison=%v type=%s msg=%s", poison, s.Describe(), hexClip(msg))
 	c.Hint(structSig(s))
 	c.Shape(s.Sig())
@@ -232,4 +236,58 @@ func runC06(c *harness.Ctx, idx int) {
 	}
 	c.Count("live_objects_verified", int64(checked))
 	c.Sample(map[string]interface{}{"type": s.Describe(), "pieces": len(o.pieces), "msg": hexClip(msg)})
+}
+
+// runC06NoCopy: objects with nocopy fields may view the input, but their pieces
+// (up to capacity) must still be aligned and pairwise disjoint, and every piece
+// that is not a nocopy view must stay out of the buffer.
+func runC06NoCopy(c *harness.Ctx, r *gen.Rand, poison bool) {
+	tc := gen.DefaultTypeCfg()
+	tc.NoCopy = true
+	tc.BigIDs = false
+	s := gen.RandomStruct(r, tc, 0)
+	vc := gen.DefaultValCfg()
+	vc.Budget = 100
+	v := gen.NewValue(r, s, vc)
+	msg := ref.EncodeWith(s, v.Elem(), &ref.EncodeOpts{Order: r.Perm})
+	c.Describe("nocopy-variant poison=%v type=%s msg=%s", poison, s.Describe(), hexClip(msg))
+	c.Hint("nocopy:" + structSig(s))
+	c.Shape("nocopy:" + s.Sig())
+	c.Tag("variant:nocopy")
+	setPoison(poison)
+	defer setPoison(false)
+	// the message sits inside a larger read buffer, as with a reused network buffer
+	big := make([]byte, len(msg)+64+r.Intn(64))
+	for i := range big {
+		big[i] = 0xBB
+	}
+	in := big[:len(msg)]
+	copy(in, msg)
+	dst := reflect.New(s.Go)
+	dr := fDecode(in, dst.Interface())
+	if dr.panicked() || dr.err != nil {
+		if _, _, rerr := ref.Decode(s, msg, reflect.New(s.Go).Elem()); rerr == nil {
+			c.Violation("decode-failed", "C06/decode-failed", "DecodeObject failed on a well-formed message: err=%v panic=%v", dr.err, dr.pv)
+		}
+		return
+	}
+	var pieces []mon.Piece
+	mon.Walk(dst.Elem(), "", &pieces)
+	pieces = mon.DropStatic(pieces)
+	if len(pieces) >= 3 {
+		c.NonTrivial()
+	}
+	if a := mon.CheckAlign(pieces); a != "" {
+		c.Violation("align", "C06/misaligned", "%s", a)
+	}
+	if d := mon.CheckDisjoint(pieces); d != "" {
+		c.Violation("overlap", "C06/overlap-nocopy", "pieces of an object with nocopy fields overlap (capacity included): %s", d)
+	}
+	lo, hi := mon.Addr(big), mon.Addr(big)+uintptr(len(big))
+	for _, p := range mon.Overlapping(pieces, lo, hi) {
+		if p.End() > lo+uintptr(len(msg)) {
+			c.Violation("beyond-message", "C06/piece-beyond-message", "%s %s [%d,%d) reaches beyond the %d-byte message into the rest of the caller's buffer", p.Kind, p.Path, p.Addr-lo, p.End()-lo, len(msg))
+		}
+	}
+	c.Sample(map[string]interface{}{"type": s.Describe(), "pieces": len(pieces), "variant": "nocopy"})
 }
